@@ -181,7 +181,7 @@ Proof. exact rate_word. Qed.
 Print Assumptions C06_rate_word.
 
 (* ------------------------------------------------------------------ (2') refutations: validators
-   that admit a string which is structural at the site they guard, with the witness *)
+   that accept a string which is structural at the site they guard, with the witness *)
 
 (* F06  Ingress path  ^/[^\s;]*$  printed bare after "location " *)
 Theorem C06_ing_path_refuted :
